@@ -23,6 +23,11 @@ def tree(root):
     return out
 
 
+def describe_value(v):
+    """a directory result is described by what it contains"""
+    return {'__dir__': tree(v)} if isinstance(v, Path) else v
+
+
 def cstore(entries):
     return clist([cpair(cstr(p), 'FDir' if h == 'dir' else f'(FValue (VStr {cstr(h)}))') for p, h in entries])
 
@@ -89,7 +94,7 @@ Definition mig_model (c : World.world * (str + (str * cfgdata)) * store * list b
                 if names:
                     n = names[k % len(names)]
                     try:
-                        old_values[n] = old.tasks[n].value
+                        old_values[n] = describe_value(old.tasks[n].value)
                     except Exception:
                         pass
             src0 = tree('data')
@@ -113,7 +118,7 @@ Definition mig_model (c : World.world * (str + (str * cfgdata)) * store * list b
                     vals = {}
                     for n, t in new.tasks.items():
                         if has[n]:
-                            vals[n] = t.value
+                            vals[n] = describe_value(t.value)
                     after = dict(has=has, values=vals, ran=[f'{s}#{k}' for _, s, k in pl.RUNLOG],
                                  old_has={n: bool(t.has_data) for n, t in old.tasks.items()})
                 except CONSTRUCTION_ERRORS as e:
@@ -138,6 +143,7 @@ Definition mig_model (c : World.world * (str + (str * cfgdata)) * store * list b
         src0 = {p: h for p, h in obs['src0']}
         real_done = False
         prev_dst = {}
+        k3 = None
         for k, (dry, s) in enumerate(zip(case['drys'], obs['steps'])):
             src, dst = {p: h for p, h in s['src']}, {p: h for p, h in s['dst']}
             changed = [p for p, h in src0.items() if src.get(p) != h]
@@ -154,8 +160,8 @@ Definition mig_model (c : World.world * (str + (str * cfgdata)) * store * list b
             if not dry:
                 real_done = True
             prev_dst = dst
-            if added:
-                return f'[source-dirs-created] migration {k} created directories in the source tree: {added[:4]}'
+            if added and k3 is None:
+                k3 = f'[source-dirs-created] migration {k} created directories in the source tree: {added[:4]}'
         a = obs.get('after') or {}
         if real_done and 'has' in a:
             for n, h in a['has'].items():
@@ -166,7 +172,7 @@ Definition mig_model (c : World.world * (str + (str * cfgdata)) * store * list b
             for n, v in a['values'].items():
                 if n in obs['old_values'] and json.dumps(v, sort_keys=True) != json.dumps(obs['old_values'][n], sort_keys=True):
                     return f'{n}: the migrated value differs from the original'
-        return None
+        return k3
 
     def nontrivial(self, case, obs):
         return 'steps' in obs and any(h != 'dir' for _, h in obs.get('src0', [])) and False in case['drys']
@@ -175,13 +181,43 @@ Definition mig_model (c : World.world * (str + (str * cfgdata)) * store * list b
         return repr(case)
 
 
+class DirMigrations(Migrations):
+    """directory-valued results with nested content, and one pipeline mounted under several namespaces: what the
+    copy step and the pairing of the two chains must cope with (runtime check; the store model abstracts a result
+    into one entry)"""
+    name = 'dir_and_namespace_migrations'
+    model = ''
+
+    def corpus(self):
+        from ..suites_chain import K, P
+        a = dict(K(0, 'A', params=[P('x')]), name='numbers')
+        b = dict(K(1, 'B', meta_inputs=[{'cls': 0}], data='dir'), name='pack')
+        c = dict(K(2, 'C', meta_inputs=[{'cls': 1}]), name='total')
+        files = {'cfg/left.json': {'tasks': ['@M.*'], 'x': 1}, 'cfg/right.json': {'tasks': ['@M.*'], 'x': 2},
+                 'cfg/main.json': {'uses': ['cfg/left.json as left', 'cfg/right.json as right']}}
+        return [dict(classes=[a, b, c], files=files, base={'file': 'cfg/main.json'}, context=None,
+                     compute=[0, 1, 2, 3, 4, 5], drys=[True, False, False]),
+                dict(classes=[a, b, c], files={'cfg/one.json': {'tasks': ['@M.*'], 'x': 1}}, base={'file': 'cfg/one.json'},
+                     context=None, compute=[1, 2], drys=[False, False])]
+
+    def gen(self, rng, tier):
+        out = []
+        for c in super().gen(rng, tier)[:(15 if tier == 'quick' else 300)]:
+            for k in c['classes']:
+                if k['data'] == 'json' and rng.random() < 0.5:
+                    k['data'] = 'dir'
+            c['compute'] = list(range(8))
+            out.append(c)
+        return out
+
+
 def source_dirs_class(violation, known):
     return violation.get('oracle', '').startswith('[source-dirs-created]')
 
 
 class C20(Prop):
     pid = 'C20'
-    suites = [Migrations()]
+    suites = [Migrations(), DirMigrations()]
     known_classes = {'source-dirs-created': source_dirs_class}
     assumptions = ['file-based configs (the utility re-reads the config file); JSON and in-memory data classes in the '
                    'correspondence; file contents are compared by SHA-256 of their bytes']
